@@ -26,6 +26,7 @@ type SpecCtx struct {
 	where    string
 	depth    int
 	snap     *loopSnap
+	cbinv    *FuncContract // contract whose `cbinv` clause interprets the abstract callback invariant (nil = abstract)
 }
 
 func (vc *VC) newSpecCtx(fc *FuncContract, cur, old *State) *SpecCtx {
@@ -669,7 +670,34 @@ func (c *SpecCtx) trCall(x *SCall) Term {
 		t := c.tr(x.Args[0])
 		c.cur, c.old, c.inOld = sc, so, si
 		return t
-	case "ncalls", "lasterr":
+	case "cbinv":
+		d := c.tr(x.Args[0])
+		if c.cbinv != nil && c.cbinv.CbInvBody != nil {
+			saved, had := c.vars[c.cbinv.CbInvParam]
+			c.vars[c.cbinv.CbInvParam] = d
+			sp, scf := c.pkg, c.cf
+			if f := vc.eng.fileOf[c.cbinv]; f != nil {
+				c.cf = f
+				c.pkg = vc.eng.pkgByPathOr(f.PkgPath, c.pkg)
+			}
+			r := c.tr(c.cbinv.CbInvBody.Expr)
+			c.pkg, c.cf = sp, scf
+			if had {
+				c.vars[c.cbinv.CbInvParam] = saved
+			} else {
+				delete(c.vars, c.cbinv.CbInvParam)
+			}
+			return r
+		}
+		arr := vc.readVar(c.state(), vc.cbinvVar())
+		return Term{"(select " + arr.S + " " + d.S + ")", sortBool}
+	case "deref":
+		p := c.tr(x.Args[0])
+		if p.Sort.Kind != KRef || p.Sort.Elem == nil {
+			return c.errorf("deref of non-pointer")
+		}
+		return vc.loadRef(c.state(), p.S, p.Sort.Elem)
+	case "ncalls", "lasterr", "lastres":
 		name := specText(x.Args[0])
 		v := vc.callbackVar(fname, name)
 		return vc.readVar(c.state(), v)
@@ -734,6 +762,14 @@ func (c *SpecCtx) trCall(x *SCall) Term {
 		_, s := c.resolveType(specText(x.Args[0]))
 		ss := vc.U.setSort(s)
 		return Term{vc.U.zero(ss), ss}
+	case "anys", "anys2": // the []any a variadic call packs its arguments into
+		ss := vc.U.sortOf(types.NewSlice(types.NewInterfaceType(nil, nil)))
+		arr := fmt.Sprintf("((as const (Array Int %s)) %s)", ss.Elem.Name, vc.U.zero(ss.Elem))
+		for i, a := range x.Args {
+			v := vc.toAny(c.tr(a))
+			arr = fmt.Sprintf("(store %s %d %s)", arr, i, v.S)
+		}
+		return Term{fmt.Sprintf("(mk_%s %s %d)", ss.Name, arr, len(x.Args)), ss}
 	case "setadd":
 		s := c.tr(x.Args[0])
 		v := c.coerce(c.tr(x.Args[1]), s.Sort.Elem)
